@@ -10,7 +10,7 @@ Import ListNotations.
 Local Open Scope Z_scope.
 
 Section WithNodes.
-Variable nodes : list (nat * nat).
+Variable nodes : cfg0.
 Local Notation SAFEm := (SAFEm nodes).
 Local Notation SAFE := (SAFE nodes).
 Local Notation between := (between nodes).
@@ -124,8 +124,9 @@ Proof.
 Qed.
 
 (** ** the initial state *)
+Local Notation ns := (c_nodes nodes).
 Definition x0 : ext := mkX None [] [] [] None.
-Definition aux20 : aux2 := mkAux2 (aux0 nodes) (fun _ => x0) [].
+Definition aux20 : aux2 := mkAux2 (aux0 ns) (fun _ => x0) [].
 
 Lemma next_at_spec l : forall r, next_at l r = null \/ exists k h, In (k, h) r /\ next_at l r = pre_node k /\ (l < h)%nat.
 Proof.
@@ -134,29 +135,28 @@ Proof.
   destruct IH as [IH|(k' & h' & Hin & E & Hl)]; [now left|right]. exists k', h'. split; [now right|auto].
 Qed.
 
-Lemma link_all_hgt : forall ns, nodes_ok ns -> forall k h, In (k, h) ns -> hgt_of (link_all ns g_empty) (pre_node k) = h.
+Lemma link_all_hgt : forall l, nodes_ok l -> forall k h, In (k, h) l -> hgt_of (link_all l g_empty) (pre_node k) = h.
 Proof.
-  induction ns as [|[k0 h0] r IH]; intros Hok k h Hin; [destruct Hin|]. destruct Hok as (Hk & Hh & Hlt & Hr).
+  induction l as [|[k0 h0] r IH]; intros Hok k h Hin; [destruct Hin|]. destruct Hok as (Hk & Hh & Hlt & Hr).
   cbn [link_all hgt_of]. unfold upd1. destruct Hin as [E|Hin].
   - inversion E; subst. now rewrite Nat.eqb_refl.
   - destruct (Nat.eqb_spec (pre_node k) (pre_node k0)) as [E|_]; [|now apply IH].
     apply pre_node_inj in E. rewrite Forall_forall in Hlt. specialize (Hlt _ Hin). cbn [fst] in Hlt. lia.
 Qed.
 
-Lemma link_all_misc : forall ns, nodes_ok ns ->
-  hgt (link_all ns g_empty) = 5 /\ (forall p, (1 <= hgt_of (link_all ns g_empty) p)%nat).
+Lemma link_all_misc : forall l, nodes_ok l ->
+  hgt (link_all l g_empty) = 5 /\ (forall p, (1 <= hgt_of (link_all l g_empty) p)%nat).
 Proof.
-  induction ns as [|[k0 h0] r IH]; intros Hok; [split; [reflexivity|intros p; cbn; lia]|]. destruct Hok as (Hk & Hh & Hlt & Hr).
+  induction l as [|[k0 h0] r IH]; intros Hok; [split; [reflexivity|intros p; cbn; lia]|]. destruct Hok as (Hk & Hh & Hlt & Hr).
   destruct (IH Hr) as [I1 I2]. cbn [link_all hgt hgt_of]. split; [exact I1|]. intros p. unfold upd1. destruct (Nat.eqb p (pre_node k0)); [lia|apply I2].
 Qed.
 
-Lemma link_all_h1 : forall ns, nodes_ok ns -> forall p l,
-  fst (nxt (link_all ns g_empty) p l) = null \/ (l < hgt_of (link_all ns g_empty) (fst (nxt (link_all ns g_empty) p l)))%nat.
+Lemma link_all_h1 : forall l0, nodes_ok l0 -> forall p l,
+  fst (nxt (link_all l0 g_empty) p l) = null \/ (l < hgt_of (link_all l0 g_empty) (fst (nxt (link_all l0 g_empty) p l)))%nat.
 Proof.
-  induction ns as [|[k0 h0] r IH]; intros Hok p l; [now left|]. pose proof Hok as (Hk & Hh & Hlt & Hr).
+  induction l0 as [|[k0 h0] r IH]; intros Hok p l; [now left|]. pose proof Hok as (Hk & Hh & Hlt & Hr).
   destruct (link_all_cell ((k0, h0) :: r) p l) as [_ [E|(k' & h' & Hin & E)]]; [now left|right].
   rewrite E, (link_all_hgt _ Hok _ _ Hin).
-  (* the target of the link is [pre_node k'] with (k', h') a prefilled node: the link was created by next_at *)
   revert E. cbn [link_all nxt]. destruct (Nat.eqb_spec p (pre_node k0)) as [->|Np].
   - destruct (Nat.ltb_spec l h0); cbn [fst]; [|intros X; exfalso; revert X; unfold pre_node, node_id, mk_node, null; lia].
     destruct (next_at_spec l r) as [X|(k2 & h2 & Hin2 & X & Hl2)]; [rewrite X; unfold pre_node, node_id, mk_node, null; lia|].
@@ -171,30 +171,31 @@ Proof.
     + now rewrite (link_all_hgt _ Hr _ _ Hin) in X.
 Qed.
 
-Lemma init_EX : nodes_ok nodes -> EX (init nodes) aux20.
+Lemma init_EX : nodes_ok ns -> EX (init ns) aux20.
 Proof.
-  intros Hok. destruct (link_all_misc nodes Hok) as [M1 M2]. constructor; cbn [b_base b_x b_wl aux20].
+  intros Hok. destruct (link_all_misc ns Hok) as [M1 M2]. constructor; cbn [b_base b_x b_wl aux20].
   - intros p l. unfold init. cbn [nxt hgt_of]. destruct (Nat.eqb p head).
-    + cbn [fst]. destruct (next_at_spec l nodes) as [X|(k & h & Hin & X & Hl)]; [now left|right]. rewrite X, (link_all_hgt _ Hok _ _ Hin). exact Hl.
+    + cbn [fst]. destruct (next_at_spec l ns) as [X|(k & h & Hin & X & Hl)]; [now left|right]. rewrite X, (link_all_hgt _ Hok _ _ Hin). exact Hl.
     + apply link_all_h1. exact Hok.
-  - intros n l _ Hm. destruct (init_cell nodes n 0%nat) as [X _]. congruence.
+  - intros n l _ Hm. destruct (init_cell ns n 0%nat) as [X _]. congruence.
   - unfold init. cbn [hgt]. rewrite M1. lia.
   - intros p. unfold init. cbn [hgt_of]. apply M2.
   - intros t. split; [intros d X; discriminate|]. split; [constructor|]. split; [constructor|]. split; [constructor|]. intros n h X. discriminate.
   - intros t X. now contradiction X.
 Qed.
 
-Lemma init_IL2 : nodes_ok nodes -> IL2 nodes (init nodes) aux20 [].
+Lemma init_IL2 : nodes_ok ns -> IL2 nodes (init ns) aux20 [].
 Proof.
-  intros Hok. destruct (init_IL nodes Hok) as [(S & st & H1 & H2 & H3) _]. constructor; cbn [b_base aux20].
+  intros Hok. destruct (init_IL ns Hok) as [(S & st & H1 & H2 & H3) _]. constructor; cbn [b_base aux20].
   - exists S, st. split; [exact H1|]. split; [|exact H3]. intros t. rewrite H2. reflexivity.
-  - unfold client_history. cbn [history_of]. rewrite app_nil_r. apply prefill_erase.
-  - intros t x y [].
+  - cbn [history_h]. rewrite app_nil_r. apply prefill_erase.
+  - intros t. reflexivity.
+  - intros _ t xy [].
 Qed.
 
 Lemma init_cfg_ok2 fuel ths :
-  nodes_ok nodes -> Forall (Forall op_ok') ths -> (List.length ths <= 63)%nat ->
-  @Conc.cfg_ok G V ev aux2 lview2 view2 (Inv2 nodes) (init_cfg fuel nodes ths).
+  nodes_ok ns -> Forall (Forall op_ok') ths -> (List.length ths <= 63)%nat ->
+  @Conc.cfg_ok G V ev aux2 lview2 view2 (Inv2 nodes) (init_cfg fuel ns ths).
 Proof.
   intros Hn Ho Hlen. exists aux20. split; [split; [now apply init_IS|split; [now apply init_EX|left; now apply init_IL2]]|].
   intros t p Hp. unfold init_cfg in Hp. cbn [Conc.threads] in Hp. rewrite nth_error_map in Hp.
@@ -208,6 +209,30 @@ Qed.
 
 End WithNodes.
 
+(** the hint of a thread only matters for its open extract invocations *)
+Lemma history_h_irrel tg tg' : forall tr pend,
+  (forall t xy, In xy (pinv t tr) ->
+     enc_op (fst xy) (snd xy) (fst (tg t)) (snd (tg t)) = enc_op (fst xy) (snd xy) (fst (tg' t)) (snd (tg' t))) ->
+  history_h tg pend tr = history_h tg' pend tr.
+Proof.
+  induction tr as [|[u v] r IH]; intros pend H; [reflexivity|].
+  assert (Hr : forall t xy, In xy (pinv t r) ->
+     enc_op (fst xy) (snd xy) (fst (tg t)) (snd (tg t)) = enc_op (fst xy) (snd xy) (fst (tg' t)) (snd (tg' t))).
+  { intros t xy Hin. apply H. now apply (pinv_cons_incl t (u, v) r). }
+  destruct v as [k o ok|name args]; [now apply IH|]. destruct args as [|x [|y [|z w]]]; try (now apply IH).
+  cbn [history_h]. destruct (String.eqb name "inv") eqn:En; [|destruct (String.eqb name "res"); now rewrite IH].
+  rewrite IH by exact Hr. f_equal. f_equal. destruct (first_res u r) eqn:Ef; [reflexivity|].
+  apply (H u (x, y)). cbn [pinv]. rewrite En, Nat.eqb_refl, Ef. now left.
+Qed.
+
+Lemma full_history_of_IL2 nodes g a tr :
+  IL2 nodes g a tr -> (forall t xy, In xy (pinv t tr) -> cok (fst xy) = true) ->
+  erase (aatr (b_base a)) = client_history (c_nodes nodes) tr.
+Proof.
+  intros [_ H4 _ _] Hc. rewrite H4. unfold client_history. f_equal. rewrite <- history_h_of. apply history_h_irrel.
+  intros t xy Hin. now rewrite !(enc_op_cok _ _ _ _ (Hc t xy Hin)).
+Qed.
+
 (** ** the theorem: for EVERY schedule, the full client history (every invocation and every response of insert / erase /
     contains, with the value returned) is linearizable w.r.t. the sequential set *)
 Theorem skip_full_history_linearizable fuel nodes ths c :
@@ -215,8 +240,10 @@ Theorem skip_full_history_linearizable fuel nodes ths c :
   Conc.reach (init_cfg fuel nodes ths) c -> ~ exhausted (Conc.trace c) ->
   linearizable SetSpec (client_history nodes (Conc.trace c)).
 Proof.
-  intros Hn Ho Hlen Hr Hne. destruct (Conc.reach_Inv (init_cfg_ok2 nodes fuel ths Hn Ho Hlen) Hr) as (a & Hs & He & [Hil|Hx]); [|contradiction].
-  destruct Hil as [(S & st & H1 & _) H4 _]. rewrite <- H4. apply lp_valid_linearizable. exists (S, st). exact H1.
+  intros Hn Ho Hlen Hr Hne.
+  destruct (Conc.reach_Inv (init_cfg_ok2 (mkCfg0 nodes true) fuel ths Hn Ho Hlen) Hr) as (a & Hs & He & [Hil|Hx]); [|contradiction].
+  pose proof (full_history_of_IL2 _ _ _ _ Hil (l2_noex _ _ _ _ Hil eq_refl)) as H4. cbn [c_nodes] in H4. rewrite <- H4.
+  destruct Hil as [(S & st & H1 & _) _ _ _]. apply lp_valid_linearizable. exists (S, st). exact H1.
 Qed.
 
 (** the abstraction: at every reachable state there is a valid LP-annotated trace whose erasure is the full client history
@@ -227,8 +254,10 @@ Theorem skip_full_abstraction fuel nodes ths c :
   exists L atr S st, walk (Conc.shared c) head L /\ lp_run lp_init atr = Some (S, st) /\ erase atr = client_history nodes (Conc.trace c) /\
     (forall k, zmem k S = true <-> exists n, In n L /\ snd (nxt (Conc.shared c) n 0) = false /\ key_of n = k).
 Proof.
-  intros Hn Ho Hlen Hr Hne. destruct (Conc.reach_Inv (init_cfg_ok2 nodes fuel ths Hn Ho Hlen) Hr) as (a & Hs & He & [Hil|Hx]); [|contradiction].
-  destruct Hil as [(S & st & H1 & _ & H3) H4 _]. exists (aL (b_base a)), (aatr (b_base a)), S, st. split; [apply (s_walk _ _ Hs)|]. auto.
+  intros Hn Ho Hlen Hr Hne.
+  destruct (Conc.reach_Inv (init_cfg_ok2 (mkCfg0 nodes true) fuel ths Hn Ho Hlen) Hr) as (a & Hs & He & [Hil|Hx]); [|contradiction].
+  pose proof (full_history_of_IL2 _ _ _ _ Hil (l2_noex _ _ _ _ Hil eq_refl)) as H4. cbn [c_nodes] in H4.
+  destruct Hil as [(S & st & H1 & _ & H3) _ _ _]. exists (aL (b_base a)), (aatr (b_base a)), S, st. split; [apply (s_walk _ _ Hs)|]. auto.
 Qed.
 
 (** towers: for every schedule (also after an out-of-fuel event) every link at level l points to a node of height > l, and
@@ -240,7 +269,7 @@ Theorem skip_towers fuel nodes ths c :
   (forall q n l, In q (chain (Conc.shared c) 0 head n) -> snd (nxt (Conc.shared c) q 0) = true ->
      (1 <= l < hgt_of (Conc.shared c) q)%nat -> snd (nxt (Conc.shared c) q l) = true).
 Proof.
-  intros Hn Ho Hlen Hr. destruct (Conc.reach_Inv (init_cfg_ok2 nodes fuel ths Hn Ho Hlen) Hr) as (a & Hs & He & _).
+  intros Hn Ho Hlen Hr. destruct (Conc.reach_Inv (init_cfg_ok2 (mkCfg0 nodes true) fuel ths Hn Ho Hlen) Hr) as (a & Hs & He & _).
   split; [apply (e_h1 _ _ He)|]. intros q n l Hin Hm Hl. apply (e_h2 _ _ He); auto.
   destruct (chain_in_link _ _ _ _ _ Hin) as (p' & E & Nq). destruct (s_closed _ _ Hs p' 0%nat) as [X|X]; [congruence|]. now rewrite E in X.
 Qed.
